@@ -64,7 +64,7 @@ def programs(tier, seed):
     if tier != 'thorough':
         pairs = [p for j, p in enumerate(pairs) if (j % 3 == seed % 3) or p[0] in ('a + b', 'N') or p[1] in ('a + b', 'N >> 1', 'c ? a : b')]
     for init, bound in pairs:
-        reps = 3 if tier == 'thorough' else 1
+        reps = 1
         for _ in range(reps):
             cmp_, side, pos, st = combos[k % len(combos)]; k += 7
             T = TYPES[k % 3] if tier == 'thorough' else ('int' if k % 5 else 'long')
